@@ -10,6 +10,7 @@ Deadline invariant proved on the real `_heartbeat_timeout_loop`:
 With the model above this gives both directions of the property: 330 s of silence from any origin
 interrupt the wait (=> reset iff connected), and a response before the deadline moves it.
 """
+from pyvc.values import unmodelled as _unmodelled  # noqa: E402
 from pyvc import aio, sym
 from pyvc.sym import And, Or, Not, Implies, ite
 from pyvc.vc import oset
@@ -46,7 +47,7 @@ class _Sock:
             return Builtin("socket." + name, call)
         if name in ("subscribe_on_message_received", "unsubcribe_on_message_received"):
             return Builtin("socket." + name, lambda cb: w.event(name, cb))
-        raise it.exc("AttributeError", name)
+        raise _unmodelled(self, name)
 
     def havoc(self, reason):
         self.n += 1
@@ -186,7 +187,17 @@ def install_deadline_loop(h, w, F, T, ev):
         raise PathEnd()
 
     it.loop_hooks[(F, 0)] = outer_hook
-    it.loop_hooks[(F, 1)] = inner_hook
+    # the response loop is located by its shape (a `while` that waits on an event and reschedules a deadline), anywhere
+    # in the module of F: it may live in F itself or in a private helper F calls (refactoring-robust)
+    import ast as _ast
+    modname = F.split(":")[0]
+
+    def is_response_loop(fullname, node):
+        return (fullname.startswith(modname + ":") and isinstance(node, _ast.While)
+                and any(isinstance(n, _ast.Attribute) and n.attr == "reschedule" for n in _ast.walk(node))
+                and any(isinstance(n, _ast.Attribute) and n.attr == "wait" for n in _ast.walk(node))
+                and not any(isinstance(n, (_ast.AsyncWith, _ast.Try)) for n in _ast.walk(node)))
+    it.loop_matchers.append((is_response_loop, inner_hook))
 
 
 @oset("heartbeat._heartbeat_timeout_loop", ["C08"], [M + "_heartbeat_timeout_loop"],
@@ -354,7 +365,9 @@ def start_stop(h):
 
 @oset("heartbeat.reset-call-sites", ["C08"], [M + "_heartbeat_timeout_loop"], kind="frame")
 def reset_sites(h):
-    """The manager calls reset_connection nowhere but in the TimeoutError handler of the timeout loop."""
+    """The manager resets the connection nowhere but on the TimeoutError path of the timeout loop: `reset_connection`
+    is referenced only inside an `except TimeoutError` handler of `_heartbeat_timeout_loop`, or in private helpers
+    that are themselves only called from there."""
     import ast
     if h.symbolic:
         tree = h.loader.asts[HB]
@@ -362,10 +375,49 @@ def reset_sites(h):
         import inspect
         import pyairtouch.comms.heartbeat as m
         tree = ast.parse(inspect.getsource(m))
-    sites = []
-    for fn in ast.walk(tree):
-        if isinstance(fn, (ast.FunctionDef, ast.AsyncFunctionDef)):
-            for n in ast.walk(fn):
-                if isinstance(n, ast.Attribute) and n.attr == "reset_connection":
-                    sites.append(fn.name)
-    h.oblige("reset_connection is referenced exactly once, inside _heartbeat_timeout_loop", sites == ["_heartbeat_timeout_loop"])
+    funcs = {fn.name: fn for fn in ast.walk(tree) if isinstance(fn, (ast.FunctionDef, ast.AsyncFunctionDef))}
+
+    def mentions(node, attr):
+        return any(isinstance(n, ast.Attribute) and n.attr == attr for n in ast.walk(node))
+
+    def timeout_handlers(fn):
+        return [hd for t in ast.walk(fn) if isinstance(t, ast.Try) for hd in t.handlers
+                if hd.type is not None and any(isinstance(n, (ast.Name, ast.Attribute)) and getattr(n, "id", getattr(n, "attr", "")) == "TimeoutError"
+                                                for n in ast.walk(hd.type))]
+    loop = funcs.get("_heartbeat_timeout_loop")
+    allowed = set()          # helpers only ever called from the TimeoutError handlers of the timeout loop (transitively)
+    if loop is not None:
+        frontier = [hd for hd in timeout_handlers(loop)]
+        seen_nodes = list(frontier)
+        changed = True
+        while changed:
+            changed = False
+            for name, fn in funcs.items():
+                if name in allowed or name == "_heartbeat_timeout_loop":
+                    continue
+                called_in_allowed = any(mentions(nd, name) for nd in seen_nodes)
+                called_elsewhere = any(mentions(other, name) for oname, other in funcs.items()
+                                       if oname != name and oname not in allowed and oname != "_heartbeat_timeout_loop")
+                # inside the timeout loop itself the helper may only be mentioned in the TimeoutError handlers
+                in_loop_outside_handler = False
+                if mentions(loop, name):
+                    inside = sum(1 for hd in timeout_handlers(loop) for n in ast.walk(hd) if isinstance(n, ast.Attribute) and n.attr == name)
+                    total = sum(1 for n in ast.walk(loop) if isinstance(n, ast.Attribute) and n.attr == name)
+                    in_loop_outside_handler = inside != total
+                if called_in_allowed and not called_elsewhere and not in_loop_outside_handler:
+                    allowed.add(name)
+                    seen_nodes.append(fn)
+                    changed = True
+    bad = []
+    for name, fn in funcs.items():
+        if not mentions(fn, "reset_connection"):
+            continue
+        if name == "_heartbeat_timeout_loop":
+            inside = sum(1 for hd in timeout_handlers(fn) for n in ast.walk(hd) if isinstance(n, ast.Attribute) and n.attr == "reset_connection")
+            total = sum(1 for n in ast.walk(fn) if isinstance(n, ast.Attribute) and n.attr == "reset_connection")
+            if inside != total:
+                bad.append(name + " (outside its TimeoutError handler)")
+        elif name not in allowed:
+            bad.append(name)
+    h.oblige("reset_connection is referenced only on the TimeoutError path of _heartbeat_timeout_loop (directly or through helpers used only there)",
+             not bad and any(mentions(f, "reset_connection") for f in funcs.values()), detail=str(bad))
